@@ -26,3 +26,31 @@ QUICK = {
     "C17": ["R17.3"],
 }
 THOROUGH_EXTRA = {}
+
+LEVEL = {}
+
+# what each claimed check decides (MANIFEST level_claimed.text) and what it does not
+CLAIMS = {
+    "C01": {"technique": "MIR typestate (must-pass-through legality gate) + backward data slices of the attack test",
+            "text": "Necessary structural conditions of legal move generation: every published successor passed the legality gate; every attack class depends on the probed square and the king class reads the enemy king.",
+            "not": "set equality with FIDE legality over all positions, completeness, duplicates"},
+    "C02": {"technique": "MIR successor typestate over every clone->publish path",
+            "text": "On every path from a successor's creation to its publication: side swapped exactly once, last_move and pawn_promotion written, en-passant target resolved.",
+            "not": "correctness of the pseudo-move lists themselves"},
+    "C05": {"technique": "MIR hash-coherence typestate (write/XOR pairing, EpClear)",
+            "text": "An en-passant target is only set on a successor whose inherited target was cleared first (the XOR discipline that keeps key and state in step).",
+            "not": "numerical quality of the 64-bit constants"},
+    "C08": {"technique": "CFG reachability on the polling loop (move-independent exit) / must-send on the producer",
+            "text": "The wait for the search thread has an exit that does not need a received move, or the producer sends on every path.",
+            "not": "the wall-clock latency bound"},
+    "C10": {"technique": "finite instantiation of the threefold predicate over all 256 counts",
+            "text": "The repetition predicate is true exactly for counts >= 2.",
+            "not": "that the key identifies the position (C05) and the score consequence of the search"},
+    "C15": {"technique": "panic census of cone(from_fen) discharged by interval abstract interpretation + enumerated idioms",
+            "text": "Every assert and panicking entry point reachable from the FEN loader is discharged for all input strings; counters are parsed wide enough.",
+            "not": "faithfulness of the loaded position beyond the letter/layout tables"},
+    "C17": {"technique": "dataflow from the read_line byte count to a process exit",
+            "text": "End of input on stdin (0-byte read) reaches a process exit.",
+            "not": "promptness (timing)"},
+}
+NOT_APPLICABLE = {}
